@@ -304,7 +304,10 @@ def run_batch(ck: Check, traces, lenient, tag):
 # ----------------------------------------------------------------------------- main
 
 def run(ck: Check):
+    import time as _time
+
     rng = random.Random(ck.seed)
+    walls, t0 = {}, _time.time()
     # ---- 1. the specification satisfies the property (exhaustive, small constants)
     if ck.thorough:
         ck.tlc("Driver", model_cfg(points=2, nfuncs=2, maxexec=2, maxn=2), workers=8, timeout=1500,
@@ -312,7 +315,7 @@ def run(ck: Check):
         # a driver instance reused on another problem, with / without new-iteration observables
         ck.tlc("Driver", model_cfg(points=2, nfuncs=1, maxexec=2, maxn=2, obss="{FALSE, TRUE}", switch=True),
                workers=8, timeout=1500, require_actions=ACTIONS + ("SwitchProblem",))
-        ck.tlc("Driver", model_cfg(points=2, nfuncs=2, maxexec=1, maxn=2, composites="{FALSE, TRUE}"), workers=8,
+        ck.tlc("Driver", model_cfg(points=2, nfuncs=1, maxexec=1, maxn=2, composites="{TRUE}"), workers=8,
                timeout=1500, require_actions=ACTIONS + ("Resume",))
         ck.tlc("Driver", model_cfg(points=3, nfuncs=1, maxexec=1, maxn=2, nxs="{2, 3}"), workers=8, timeout=1500,
                require_actions=ACTIONS)
@@ -344,6 +347,7 @@ def run(ck: Check):
     ck.assumptions.append("use_database=False: gemseo has no budget mechanism (no entries, counter never incremented); "
                           "such runs are validated for AlwaysResult and the protocol only")
 
+    walls["1_model_checking"] = round(_time.time() - t0, 1)
     # ---- 2. code -> spec: every algorithm of the two factories
     import logging
     import warnings
@@ -438,7 +442,9 @@ def run(ck: Check):
         traces.append(t)
     for t in traces[:3]:
         ck.sample({"meta": t["meta"], "events": t["events"][:12]})
+    walls["2a_recording"] = round(_time.time() - t0 - sum(walls.values()), 1)
     validate(ck, traces, "rec")
+    walls["2b_trace_validation"] = round(_time.time() - t0 - sum(walls.values()), 1)
     ck.extra["planned_runs"] = total_plan
     ck.extra["recorded_traces"] = len(traces)
     ck.extra["executions_recorded"] = sum(1 for t in traces for e in t["events"] if e["ev"] == "exec")
@@ -453,6 +459,7 @@ def run(ck: Check):
     from . import c03_script
 
     c03_script.run(ck, rng, validate)
+    walls["3_scripted_replay"] = round(_time.time() - t0 - sum(walls.values()), 1)
     # ---- 4. failure isolation of the DOE loop over DISCIPLINES (Retry.tla): a sample whose evaluation
     # raises ValueError below the top-level discipline must cost that sample only ("a DOE evaluates each
     # distinct generated sample once and records them"); the other clauses of that module are growth.
@@ -460,6 +467,8 @@ def run(ck: Check):
     from ..growth import g04_retry
 
     g04_retry.run(Promote(ck, {"G04.doe.failure-isolation": ("DoeFailureIsolation", {"what": "doe_inner_discipline_failure"})}))
+    walls["4_retry_growth"] = round(_time.time() - t0 - sum(walls.values()), 1)
+    ck.extra["wall_by_section_s"] = walls
     ck.exhaustive = False
 
 
